@@ -216,6 +216,9 @@ def templates(tier):
         for sig in ("x, /, y", "x, y, /", "x, y=2.0", "x: float, y: float = 1.0"):
             yield "signature-variant", f"#sig: {sig}\nt = {e1}\nreturn t - ({e2})"
             yield "signature-variant-call", f"#sig: {sig}\nreturn h({e1}, {e2}) + hs(x, y)"
+        # an element of a tuple display that cannot be translated, bound to a name that is also a module constant
+        yield "tuple-untranslatable-element", f"K, t = hloop(x, y), {e1}\nreturn t + K * ({e2})"
+        yield "tuple-untranslatable-element", f"t, KK = {e1}, hloop(y, x)\nreturn t - KK"
         yield "call-keywords", f"return h(a={e1}, b={e2})"
         yield "call-keywords-out-of-order", f"return h(b={e2}, a={e1})"
         yield "call-mixed-keywords", f"return hm.h2({e1}, b={e2}) + hs(x=y, y=x)"
